@@ -565,6 +565,10 @@ var (
 		`{"f":"x","o":"=","v":true,"c":"coll"}`,
 		`{"o":"and","c":"things","v":[{"f":"x","o":"=","v":"a","c":"leaf"},{"o":"or","c":"inner","v":[{"f":"y","o":"<","v":2}]}]}`,
 		`{"f":"x","o":"in","v":["a","b c","d&e"]}`,
+		// groups of one member, nested
+		`{"o":"and","v":[{"o":"or","v":[{"f":"x","o":"=","v":"a"}]}]}`,
+		`{"o":"or","v":[{"f":"y","o":">","v":1}]}`,
+		`{"o":"or","v":[{"o":"and","v":[{"o":"or","v":[]}]}]}`,
 	}
 )
 
